@@ -34,7 +34,16 @@ OTHER_KINDS = ["scalarInt", "scalarFloat", "scalarNpFloat", "quantity", "derived
                # a single measurement recorded from repeated readings (as many readings as the array has
                # elements, or another number); numbers of the other types the ecosystem produces
                # (values these types represent exactly: dyadic, so the model sees the same number)
-               "repeatedQuantity", "scalarNpInt", "scalarNpFloat32", "scalarFraction"]
+               "repeatedQuantity", "scalarNpInt", "scalarNpFloat32", "scalarFraction",
+               # a single quantity that is NOT independent of the array's elements: an element of the
+               # array itself; a calculated quantity whose formula contains elements of the array (their
+               # sum, m/(a0+a1), a_j*sqrt(m), a_j+m); a measurement correlated with elements of the
+               # array; a calculated quantity whose source is.  The i-th element of the result is the
+               # scalar operation on the i-th element and THAT quantity: its formula and its records
+               # count, not only its value and uncertainty
+               "elementOfArray", "derivedShared", "quantityCorr", "derivedCorr"]
+SHARED_KINDS = ["elementOfArray", "derivedShared", "quantityCorr", "derivedCorr"]
+SHARED_FORMS = ["sum", "sum", "quotsum", "prodsqrt", "plusm"]
 # argument kinds of the math functions (np.float32 / Fraction arguments are excluded: a float32
 # argument gives a float32 result, 1e-7 from the binary64 model; numpy has no sqrt/sin/.. of a Fraction)
 FN_KINDS = ["marray", "marrayDerived", "listFloat", "listInt", "ndarrayFloat", "ndarrayInt",
@@ -147,6 +156,7 @@ class Builder:
         self.nodes, self.leaves = [], []
         self.rho = []
         self._same = None
+        self._arr = None          # the MeasurementArray leaf made last (never reset)
         self.readings = {}
         self.specials = None      # special values for the leaf being built (position 0 always special)
 
@@ -180,7 +190,50 @@ class Builder:
             self.leaves.append({"k": "marray", "vars": vs, "unit": unit,
                                 "name": rng.choice(["", "len", "t"])})
             self._same = len(self.leaves) - 1
+            self._arr = self._same
             return ["leaf", self._same]
+        if kind in SHARED_KINDS:
+            if self._arr is None:
+                return self.leaf("derivedQuantity", prof)
+            avars = self.leaves[self._arr]["vars"]
+            aunit = self.leaves[self._arr]["unit"]
+            j = rng.randrange(len(avars))
+            aj = self._node(["var", avars[j]])
+            if kind == "elementOfArray":
+                return ["leaf", self._push({"k": "quantity", "node": aj, "shared": "element"})]
+            if kind == "derivedShared":
+                form = rng.choice(SHARED_FORMS)
+                a0 = self._node(["var", avars[0]])
+                a1 = self._node(["var", avars[min(1, len(avars) - 1)]])
+                if form in ("sum", "quotsum"):
+                    tot = self._node(["bin", "add", a0, a1])
+                    if form == "quotsum" or len(avars) == 1:
+                        m = self._node(["var", self.new_var(prof, rng.choice(UNITS))])
+                        tot = self._node(["bin", "div", m, tot])
+                        form = "quotsum"
+                    nd = tot
+                elif form == "prodsqrt":
+                    m = self._node(["var", self.new_var("pos", rng.choice(UNITS))])
+                    nd = self._node(["bin", "mul", aj, self._node(["un", "sqrt", m])])
+                else:
+                    m = self._node(["var", self.new_var(prof, aunit)])
+                    nd = self._node(["bin", "add", aj, m])
+                return ["leaf", self._push({"k": "quantity", "node": nd, "shared": form})]
+            # a measurement correlated with one or two elements of the array (|r| <= 0.7 each and the
+            # elements are independent of each other: the joint correlation matrix stays positive definite)
+            i = self.new_var(prof, rng.choice(UNITS))
+            if self.errs[i] == 0.0:
+                self.errs[i] = (abs(self.vals[i]) or 1.0) * 0.01
+            cand = [v for v in avars if self.errs[v] > 0]
+            rng.shuffle(cand)
+            for v in cand[:rng.choice([1, 2, 2])]:
+                self.rho.append([i, v, bits(rng.choice([0.5, -0.5, 0.7, -0.7, 0.25, round(rng.uniform(-0.7, 0.7), 3)]))])
+            m = self._node(["var", i])
+            if kind == "quantityCorr":
+                return ["leaf", self._push({"k": "quantity", "node": m, "shared": "correlated"})]
+            w = self._node(["var", self.new_var("pos", rng.choice(UNITS))])
+            nd = self._node(["bin", "mul", m, self._node(["un", "sqrt", w])])
+            return ["leaf", self._push({"k": "quantity", "node": nd, "shared": "derived-from-correlated"})]
         if kind == "marrayDerived":
             # (a + c) for profiles closed under +, (a * c) otherwise: elements with two sources
             a = self.leaf("marray", prof)
@@ -265,7 +318,7 @@ class Builder:
     def finish(self, tree, label):
         # correlations between the elements of two different arrays (same position), sometimes
         arrs = [l for l in self.leaves if l["k"] == "marray"]
-        if len(arrs) >= 2 and self.rng.random() < 0.4:
+        if len(arrs) >= 2 and not self.rho and self.rng.random() < 0.4:
             a, b = arrs[0], arrs[1]
             for i, j in zip(a["vars"], b["vars"]):
                 if self.errs[i] > 0 and self.errs[j] > 0 and self.rng.random() < 0.7:
@@ -375,6 +428,8 @@ def gen_binop(rng, op, other, array_left, n=None):
             pa = po = "any"
         if other in ("marray", "marraySame", "marrayDerived", "derivedQuantity") and op == "pow":
             po = "pos" if not array_left else "expo"
+        if other in SHARED_KINDS and op == "pow":
+            po = "expo" if array_left else "base"
         a = b.leaf("marray", pa)
         o = b.leaf(other, po if other != "marraySame" else pa)
         tree = ["op", op, a, o] if array_left else ["op", op, o, a]
@@ -402,9 +457,13 @@ def gen_neg(rng, kind, n=None):
 def gen_log2(rng, kbase, kx, n=None):
     def make():
         b = Builder(rng, n or rng.randint(1, 6))
-        base = b.leaf(kbase, "base")
-        b._same = None
-        x = b.leaf(kx, "pos")
+        if kbase in SHARED_KINDS:       # the array first: the base is built from / correlated with it
+            x = b.leaf(kx, "pos")
+            base = b.leaf(kbase, "base")
+        else:
+            base = b.leaf(kbase, "base")
+            b._same = None
+            x = b.leaf(kx, "pos")
         return b.finish(["log2", base, x], "log2:{},{}".format(kbase, kx))
     return _retry(rng, make)
 
@@ -519,6 +578,7 @@ def combos():
     c += [("fn", cls, name, kind) for cls, name in FUNCS for kind in FN_KINDS]
     c += [("neg", kind) for kind in ("marray", "marrayDerived", "quantity")]
     c += [("log2", kb, kx) for kb in FN_KINDS for kx in FN_KINDS]
+    c += [("log2", kb, kx) for sk in SHARED_KINDS for kb, kx in ((sk, "marray"), ("marray", sk))]
     # special values
     c += [("opS", op, other, left) for op in OPS for other in OP_SPECIAL_KINDS for left in (True, False)]
     c += [("fnS", cls, name, kind) for cls, name in FUNCS for kind in FN_SPECIAL_KINDS]
@@ -726,6 +786,9 @@ def _pn(case, k):
     nd = case["nodes"][k]
     if nd[0] == "var":
         i = nd[1]
+        for li, l in enumerate(case["leaves"]):
+            if l["k"] == "marray" and i in l["vars"]:
+                return "L{}[{}]".format(li, l["vars"].index(i))      # an element of that array
         return "({!r}+/-{!r}{})".format(unbits(case["vals"][i]), unbits(case["errs"][i]),
                                        " " + case["units"][i] if case["units"][i] else "")
     if nd[0] == "un":
